@@ -25,6 +25,7 @@ type Ctx struct {
 	Thorough bool
 	findIdx   map[*ssa.Function]*findIndex
 	nonEmpty  map[*ssa.Parameter]int
+	addrTaken map[*ssa.Function]bool
 	shrinkers map[*types.Var]map[*types.Func]bool
 	boundsSeen map[string]bool
 
